@@ -208,8 +208,8 @@ theorem sim_tick {cfg : Cfg} {st : State} {m : Mon} (h : Sim cfg st m) (dt : Nat
   · intro j r hr hn
     exact not_alive_mono cfg r st.now dt (h.dead j r hr hn)
 
-theorem sim_stop {cfg : Cfg} {st : State} {m : Mon} (h : Sim cfg st m) (b : Bool) :
-    Sim cfg (step cfg st (.stop b)).1 (m.step cfg (.stop b) (step cfg st (.stop b)).2) := by
+theorem sim_stop {cfg : Cfg} {st : State} {m : Mon} (h : Sim cfg st m) (b : Bool) (ov : List (Nat × Outcome)) :
+    Sim cfg (step cfg st (.stop b ov)).1 (m.step cfg (.stop b ov) (step cfg st (.stop b ov)).2) := by
   simp only [step, Mon.step]
   refine ⟨h.now_eq, by simp, by simp, ?_, by simp, ?_⟩
   · intro j hj
@@ -300,32 +300,32 @@ theorem sim_subscribe {cfg : Cfg} {st : State} {m : Mon} (h : Sim cfg st m) (nt 
 def deliverable (cfg : Cfg) (st : State) (a : Str) (s : Sub) : Bool :=
   suffixMatch s.filter a && s.valid cfg st.now && s.unsubAt.isNone
 
-theorem deliver_pos {cfg : Cfg} {st : State} {a : Str} {s : Sub} (h : deliverable cfg st a s = true) :
-    deliver cfg st a s =
-      ({ s with errors := if st.modeOf s.notifyTo = .ok then 0 else s.errors + 1 },
-       [⟨.notification a, s.id, s.notifyTo, st.modeOf s.notifyTo⟩]) := by
+theorem deliver_pos {cfg : Cfg} {st : State} {ov : List (Nat × Outcome)} {a : Str} {s : Sub} (h : deliverable cfg st a s = true) :
+    deliver cfg st ov a s =
+      ({ s with errors := if st.outcomeFor ov s.id s.notifyTo = .ok then 0 else s.errors + 1 },
+       [⟨.notification a, s.id, s.notifyTo, st.outcomeFor ov s.id s.notifyTo⟩]) := by
   unfold deliverable at h
   simp [deliver, h]
 
-theorem deliver_neg {cfg : Cfg} {st : State} {a : Str} {s : Sub} (h : deliverable cfg st a s = false) :
-    deliver cfg st a s = (s, []) := by
+theorem deliver_neg {cfg : Cfg} {st : State} {ov : List (Nat × Outcome)} {a : Str} {s : Sub} (h : deliverable cfg st a s = false) :
+    deliver cfg st ov a s = (s, []) := by
   unfold deliverable at h
   simp [deliver, h]
 
-theorem deliver_id (cfg : Cfg) (st : State) (a : Str) (s : Sub) : (deliver cfg st a s).1.id = s.id := by
+theorem deliver_id (cfg : Cfg) (st : State) (ov : List (Nat × Outcome)) (a : Str) (s : Sub) : (deliver cfg st ov a s).1.id = s.id := by
   cases h : deliverable cfg st a s
   · rw [deliver_neg h]
   · rw [deliver_pos h]
 
-theorem deliver_msgs_sub {cfg : Cfg} {st : State} {a : Str} {s : Sub} :
-    ∀ msg ∈ (deliver cfg st a s).2, msg.sub = s.id := by
+theorem deliver_msgs_sub {cfg : Cfg} {st : State} {ov : List (Nat × Outcome)} {a : Str} {s : Sub} :
+    ∀ msg ∈ (deliver cfg st ov a s).2, msg.sub = s.id := by
   intro msg hm
   cases h : deliverable cfg st a s
   · rw [deliver_neg h] at hm; cases hm
   · rw [deliver_pos h] at hm; simp at hm; subst hm; rfl
 
-theorem find_msgs_none (cfg : Cfg) (st : State) (a : Str) (l : List Sub) (j : Nat) (hn : ∀ s ∈ l, s.id ≠ j) :
-    ((l.map (deliver cfg st a)).flatMap (·.2)).find? (fun msg => msg.sub == j) = none := by
+theorem find_msgs_none (cfg : Cfg) (st : State) (ov : List (Nat × Outcome)) (a : Str) (l : List Sub) (j : Nat) (hn : ∀ s ∈ l, s.id ≠ j) :
+    ((l.map (deliver cfg st ov a)).flatMap (·.2)).find? (fun msg => msg.sub == j) = none := by
   rw [List.find?_eq_none]
   intro msg hm
   simp only [List.mem_flatMap, List.mem_map] at hm
@@ -333,42 +333,42 @@ theorem find_msgs_none (cfg : Cfg) (st : State) (a : Str) (l : List Sub) (j : Na
   have := deliver_msgs_sub msg hm
   simp [this, hn s hs]
 
-theorem find_msgs_mem (cfg : Cfg) (st : State) (a : Str) (l : List Sub) (hnd : (l.map (·.id)).Nodup) (s : Sub)
+theorem find_msgs_mem (cfg : Cfg) (st : State) (ov : List (Nat × Outcome)) (a : Str) (l : List Sub) (hnd : (l.map (·.id)).Nodup) (s : Sub)
     (hs : s ∈ l) :
-    ((l.map (deliver cfg st a)).flatMap (·.2)).find? (fun msg => msg.sub == s.id) = (deliver cfg st a s).2.head? := by
+    ((l.map (deliver cfg st ov a)).flatMap (·.2)).find? (fun msg => msg.sub == s.id) = (deliver cfg st ov a s).2.head? := by
   induction l with
   | nil => cases hs
   | cons x xs ih =>
     simp only [List.map_cons, List.nodup_cons, List.mem_map, not_exists, not_and] at hnd
     simp only [List.map_cons, List.flatMap_cons, List.find?_append]
     rcases List.mem_cons.mp hs with rfl | hs'
-    · have hrest := find_msgs_none cfg st a xs s.id (fun t ht h => hnd.1 t ht h)
+    · have hrest := find_msgs_none cfg st ov a xs s.id (fun t ht h => hnd.1 t ht h)
       rw [hrest]
       cases h : deliverable cfg st a s
       · rw [deliver_neg h]; rfl
       · rw [deliver_pos h]; simp
     · have hne : x.id ≠ s.id := fun h => hnd.1 s hs' h.symm
-      have : (deliver cfg st a x).2.find? (fun msg => msg.sub == s.id) = none := by
+      have : (deliver cfg st ov a x).2.find? (fun msg => msg.sub == s.id) = none := by
         rw [List.find?_eq_none]
         intro msg hm
         simp [deliver_msgs_sub msg hm, hne]
       rw [this, Option.none_or]
       exact ih hnd.2 hs'
 
-theorem sim_notify {cfg : Cfg} {st : State} {m : Mon} (h : Sim cfg st m) (a : Str) :
-    Sim cfg (step cfg st (.notify a)).1 (m.step cfg (.notify a) (step cfg st (.notify a)).2) := by
+theorem sim_notify {cfg : Cfg} {st : State} {m : Mon} (h : Sim cfg st m) (a : Str) (ov : List (Nat × Outcome)) :
+    Sim cfg (step cfg st (.notify a ov)).1 (m.step cfg (.notify a ov) (step cfg st (.notify a ov)).2) := by
   simp only [step, Mon.step, List.map_map]
-  refine h.map (fun s => (deliver cfg st a s).1) _ (deliver_id cfg st a) ?_ ?_
+  refine h.map (fun s => (deliver cfg st ov a s).1) _ (deliver_id cfg st ov a) ?_ ?_
   · intro s hs
     obtain ⟨hr, hc, hst⟩ := h.recOf s hs
-    simp only [hr, Option.map_some, find_msgs_mem cfg st a st.subs h.nodup s hs]
+    simp only [hr, Option.map_some, find_msgs_mem cfg st ov a st.subs h.nodup s hs]
     cases hd : deliverable cfg st a s
     · rw [deliver_neg hd]; exact ⟨rfl, hc, hst⟩
     · rw [deliver_pos hd]
       refine ⟨?_, hc, hst⟩
       simp [Sub.repr]
   · intro j hj
-    simp only [find_msgs_none cfg st a st.subs j hj]
+    simp only [find_msgs_none cfg st ov a st.subs j hj]
     cases m.recs j <;> rfl
 
 /-! ### every op preserves the invariant -/
@@ -380,11 +380,11 @@ theorem sim_step {cfg : Cfg} {st : State} {m : Mon} (hw : cfg.WF) (h : Sim cfg s
   | renew k e => exact sim_renew hw h k e
   | getStatus k => exact sim_getStatus h k
   | unsubscribe k => exact sim_unsubscribe hw h k
-  | notify a => exact sim_notify h a
+  | notify a ov => exact sim_notify h a ov
   | tick dt => exact sim_tick h dt
   | setOutcome a o => exact sim_setOutcome h a o
   | housekeeping => exact sim_housekeeping h
-  | stop b => exact sim_stop h b
+  | stop b ov => exact sim_stop h b ov
 
 theorem sim_runBoth {cfg : Cfg} (hw : cfg.WF) (ops : List Op) :
     ∀ (st : State) (m : Mon), Sim cfg st m → Sim cfg (runBoth cfg (st, m) ops).1 (runBoth cfg (st, m) ops).2 := by
